@@ -38,7 +38,7 @@ ASSUMPTIONS = [
     "split_non_commuting refusing var/sample/counts/probs of a Sum with RuntimeError, diagonalize_measurements refusing with ValueError/QuantumFunctionError and batch_* refusing with ValueError count as rejections.",
     "Operators that are left broadcasted by a transform are un-broadcast for the reference run with bind_new_parameters.",
 ]
-BUDGET = {"quick": {"examples": 2000}, "thorough": {"examples": 120000, "shards": 16}}
+BUDGET = {"quick": {"examples": 3000}, "thorough": {"examples": 120000, "shards": 16}}
 SHRINK_LISTS = ("ops", "meas")
 
 GS = ["default", "wires", "qwc", None]
@@ -351,8 +351,28 @@ def case_diag(R):
 def case_sign(R):
     ws = rgen.wire_labels(R, R.randint(1, 3))
     ops = rgen.op_list(R, ws, 1, 6)
-    letters = {repr(w): R.choice(PAULI) for w in ws}
-    H = _lin(R, lambda: _word(R, ws, letters, ident=0.1) if R.random() < 0.8 else _ident(R, ws), depth=0)
+    if R.random() < 0.6:
+        # X/Z words whose supports are linearly independent (term i owns wire i): spectrum {sum +-c_i}, no offset
+        k = R.randint(1, len(ws))
+        own = R.sample(ws, k)
+        letters = {repr(w): R.choice(["PauliX", "PauliZ"]) for w in ws}
+        terms = []
+        for i, w in enumerate(own):
+            extra = [v for v in ws if v not in own and R.random() < 0.4]
+            sub = [w] + extra
+            R.shuffle(sub)
+            fs = [{"op": letters[repr(v)], "w": [v]} for v in sub]
+            terms.append(fs[0] if len(fs) == 1 else {"op": "prod", "operands": fs})
+        cs = [round(R.uniform(0.1, 1.0), 4) * R.choice([1, -1]) for _ in terms]
+        if len(terms) == 1:
+            terms, cs = terms * 2, [cs[0], round(R.uniform(0.1, 1.0), 4)]
+        if R.random() < 0.5:
+            H = {"op": "sum", "operands": [{"op": "s_prod", "c": c, "base": o} for c, o in zip(cs, terms)]}
+        else:
+            H = {"op": R.choice(["lincomb", "hamiltonian"]), "coeffs": cs, "operands": terms}
+    else:
+        letters = {repr(w): R.choice(PAULI) for w in ws}
+        H = _lin(R, lambda: _word(R, ws, letters, ident=0.1) if R.random() < 0.8 else _ident(R, ws), depth=0)
     return {"t": "sign", "wires": ws, "ops": ops, "meas": [{"mp": "expval", "obs": H}], "shots": None, "u": []}
 
 
